@@ -19,6 +19,7 @@ import re
 import shutil
 
 import common
+import pipeline
 from common import MachineryError
 
 LEVEL = "model_checking"
@@ -268,6 +269,8 @@ def run(tier, rep):
     rep.assumptions += ["operator coefficients compared at 1e-8 dt; tables transcribed once from the pinned sources (ScheduleTables.tla) and validated algebraically by TLC",
                         "safe-vs-unsafe numeric agreement is sampled (A5), not decided",
                         "modifying particles while unsynchronised is outside the documented contract and not exercised"]
+    # the phases of one step as the user's callbacks see them (StepPipeline)
+    pipeline.run(rep, tier, sc)
     shutil.rmtree(sc, ignore_errors=True)
 
 
